@@ -921,6 +921,37 @@ func pooledClose(id string, seed uint64) runner.Result {
 	var hist []string
 	var streams []drpc.Stream
 	var handles []drpcpool.Conn
+	if r.Intn(3) == 0 {
+		// a handle that is closed while its first call is still dialing
+		entered, release := make(chan struct{}), make(chan struct{})
+		slowDial := func(ctx context.Context, k string) (drpcpool.Conn, error) {
+			close(entered)
+			<-release
+			return dial(ctx, k)
+		}
+		h := pool.Get(context.Background(), "k", slowDial)
+		what := payload.Pick(r, []string{"Invoke", "NewStream"})
+		call := rig.Go("dialing-call", func() (interface{}, error) {
+			in := payload.Make(1, 0, 0, 0, 5)
+			if what == "Invoke" {
+				var out []byte
+				return nil, h.Invoke(context.Background(), "/x", payload.Enc{}, &in, &out)
+			}
+			st, err := h.NewStream(context.Background(), "/x", payload.Enc{})
+			if err == nil {
+				st.Close()
+			}
+			return nil, err
+		})
+		if s, _ := census.QuiesceOr(entered, rig.Watchdog); s == "ready" {
+			h.Close()
+			census.Quiesce(rig.Watchdog)
+		}
+		close(release)
+		call.Wait()
+		census.Quiesce(rig.Watchdog)
+		hist = append(hist, "hX."+what+"(dialing) hX.Close(during-the-dial)")
+	}
 	for i := 0; i < nh; i++ {
 		h := pool.Get(context.Background(), "k", dial)
 		handles = append(handles, h)
